@@ -90,8 +90,14 @@ def _match(pattern, sig):
     return pattern == sig or fnmatch.fnmatchcase(sig, pattern)
 
 
+def outdir(kind):
+    """evidence/ and replays/ live in /verif unless VERIF_OUT redirects them (used when the checks
+    are pointed at a scratch copy of the repository carrying a seeded change)."""
+    return os.path.join(os.environ.get("VERIF_OUT") or core.VERIF, kind)
+
+
 def write_replay(prop, sig, f):
-    d = os.path.join(core.VERIF, "replays", prop)
+    d = os.path.join(outdir("replays"), prop)
     os.makedirs(d, exist_ok=True)
     path = os.path.join(d, core.digest(sig) + ".json")
     json.dump({"property": prop, "signature": sig, "what": f["what"], "count": f["count"], "case": f["case"]},
@@ -127,7 +133,7 @@ def do_replay(mod, prop, path):
 
 
 def write_evidence(prop, tier, seed, mod, cov, wall, nviol):
-    d = os.path.join(core.VERIF, "evidence")
+    d = outdir("evidence")
     os.makedirs(d, exist_ok=True)
     c = dict(cov.d)
     if not c["samples"]:
